@@ -22,7 +22,7 @@ Definition def_tyguard_src (p : fcprog) (data codata : list ctydecl) (d : fdef) 
   && tg p data codata (compile_ctx (fdctx d)) (fdbody d)
   && (has_ty (fdbody d) (compile_ty (fdret d)) && tyd data codata (compile_ty (fdret d))).
 Definition prog_tyguard_src (p : fcprog) : bool :=
-  decls_tyguard p && forallb (def_tyguard_src p (cdata_of p) (ccodata_of p)) (fcpdefs p).
+  decls_tyguard p && negb (calls_main_prog p) && forallb (def_tyguard_src p (cdata_of p) (ccodata_of p)) (fcpdefs p).
 
 Lemma def_tyguard_src_main : forall p data codata d,
   main_ret_ok d = true -> def_tyguard_src p data codata d = true -> def_tyguard p data codata d = true.
